@@ -48,7 +48,35 @@ def _exported_of(ctx: Ctx, f: Func, cls: Class, depth: int) -> Dict[str, ast.AST
                                 break
             elif isinstance(tg, ast.Subscript) and isinstance(tg.value, ast.Name) and isinstance(tg.slice, ast.Constant):
                 out[str(tg.slice.value)] = v
+        # the dict (or an extension of it) built in the return statement: return {**data, "k": v} / return dict(...)
+        if isinstance(n, ast.Return) and n.value is not None:
+            v = n.value
+            if isinstance(v, ast.Call) and isinstance(v.func, ast.Name) and v.func.id == "dict":
+                for k in v.keywords:
+                    if k.arg:
+                        out[k.arg] = k.value
+                    else:
+                        _spread(ctx, f, cls, k.value, out, depth)
+            elif isinstance(v, ast.Dict):
+                for k, val in zip(v.keys, v.values):
+                    if k is None:
+                        _spread(ctx, f, cls, val, out, depth)
+                    elif isinstance(k, ast.Constant) and isinstance(k.value, str):
+                        out[k.value] = val
     return out
+
+
+def _spread(ctx: Ctx, f: Func, cls: Class, e: ast.AST, out: Dict[str, ast.AST], depth: int) -> None:
+    """**e inside the returned dict: a local dict (already collected) or super().data(...)."""
+    if isinstance(e, ast.Call) and isinstance(e.func, ast.Attribute) and e.func.attr == "data" and src(e.func.value) == "super()" and depth < 4:
+        mro = cls.mro
+        owner = f.cls
+        if owner in mro:
+            for c in mro[mro.index(owner) + 1 :]:
+                if "data" in c.methods:
+                    for k, v in _exported_of(ctx, c.methods["data"], cls, depth + 1).items():
+                        out.setdefault(k, v)
+                    break
 
 
 def uuid_conditional(ctx: Ctx, cls: Class) -> Optional[bool]:
@@ -58,6 +86,8 @@ def uuid_conditional(ctx: Ctx, cls: Class) -> Optional[bool]:
         return None
     cfg = ctx.cfg(f)
     stores = [n for n in cfg.live if n.kind == "stmt" and isinstance(n.ast, ast.Assign) and isinstance(n.ast.targets[0], ast.Subscript) and isinstance(n.ast.targets[0].slice, ast.Constant) and n.ast.targets[0].slice.value == "uuid"]
+    # or added in the return statement: return {**data, "uuid": self.uuid}
+    stores += [n for n in cfg.live if n.kind == "stmt" and isinstance(n.ast, ast.Return) and isinstance(n.ast.value, ast.Dict) and any(isinstance(k, ast.Constant) and k.value == "uuid" for k in n.ast.value.keys)]
     if not stores:
         # inherited through super().data(uuid)
         for c in cls.mro[1:]:
@@ -67,7 +97,7 @@ def uuid_conditional(ctx: Ctx, cls: Class) -> Optional[bool]:
         return None
     for s in stores:
         deps = cfg.control_deps(s)
-        if not any(c.kind == "cond" and src(c.ast) == "uuid" and lab == "T" for c, lab in deps):
+        if not any(c.kind == "cond" and ((src(c.ast) == "uuid" and lab == "T") or (src(c.ast) == "not uuid" and lab == "F")) for c, lab in deps):
             return False
     return True
 
